@@ -260,3 +260,13 @@ Proof.
     split; [exact (skipn_lt_length _ _ _ _ (sy_L _ _ _ _ Hs))|].
     rewrite (ta_off _ _ _ T), (ta_line _ _ _ T), (ta_col _ _ _ T). split; [apply (sy_off _ _ _ _ Hs)|apply (sy_pos _ _ _ _ Hs)].
 Qed.
+
+(** agreement modulo the property's equivalence transfers the refinement to the observed scan *)
+Lemma refines_respects_equiv : forall (model observed : lex_result) (toks : list token),
+  model = Done toks [] -> obs_equiv model observed ->
+  exists ts', observed = Done ts' [] /\ map observable ts' = map observable toks.
+Proof.
+  intros model observed toks -> H. destruct observed as [|ts' es']; [contradiction|].
+  destruct H as (H1 & H2 & _). exists ts'. split; [|symmetry; exact H1].
+  f_equal. apply H2. reflexivity.
+Qed.
